@@ -68,8 +68,8 @@ Definition numeric_first_ok (it : string * list (string * Q) * expr * expr) : Pr
 Ltac solve_numfirst :=
   unfold numeric_first_ok, inst_env; intros f s m0 g0 ma mb L d; cbn [map fst snd app];
   denC_simpl; split;
-  [ tauto
-  | intros Hwd; first [ reflexivity | (split_hyps; neq_factors; field; repeat split; assumption) ] ].
+  [ timeout 20 tauto
+  | intros Hwd; first [ reflexivity | timeout 20 (split_hyps; neq_factors; field; repeat split; assumption) ] ].
 
 Lemma edw_numeric_first : Forall numeric_first_ok gen_edw_numeric_first.
 Proof. unfold gen_edw_numeric_first. repeat (constructor; [solve_numfirst|]). constructor. Qed.
